@@ -392,21 +392,21 @@ package strategy
 //@ func NewPreciseStrategy
 //@   requires fits_no_overflow: limit <= MaxInt32
 //@   ensures[C01,C19] fresh_gate: fresh(result) && result.limit == max(1, limit) && result.inFlight == 0
-//@   establishes[C01] result
+//@   establishes[C01,C02] result
 //@ func NewPreciseStrategyWithMetricRegistry
 //@   requires fits_no_overflow: limit <= MaxInt32 && registry != nil
 //@   ensures[C01,C19] fresh_gate: fresh(result) && result.limit == max(1, limit) && result.inFlight == 0 && result.metricListener != nil
 //@   ensures[C20] limit_gauge: ncalls("core.MetricRegistry.RegisterGauge") == 1 && callarg("core.MetricRegistry.RegisterGauge", 0, 0) == "limit" && isfunc(*captured(callarg("core.MetricRegistry.RegisterGauge", 0, 1), "core.NewIntMetricSupplierWrapper$1", 0), "(*strategy.PreciseStrategy).GetLimit$bound") && captured(*captured(callarg("core.MetricRegistry.RegisterGauge", 0, 1), "core.NewIntMetricSupplierWrapper$1", 0), "(*strategy.PreciseStrategy).GetLimit$bound", 0) == result
-//@   establishes[C01] result
+//@   establishes[C01,C02] result
 //@ func NewSimpleStrategy
 //@   requires fits_no_overflow: limit <= MaxInt32
 //@   ensures[C01] fresh_gate: fresh(result) && *result.limit == max(1, limit) && *result.inFlight == 0
-//@   establishes[C01] result
+//@   establishes[C01,C02] result
 //@ func NewSimpleStrategyWithMetricRegistry
 //@   requires fits_no_overflow: limit <= MaxInt32 && registry != nil
 //@   ensures[C01] fresh_gate: fresh(result) && *result.limit == max(1, limit) && *result.inFlight == 0 && result.metricListener != nil
 //@   ensures[C20] limit_gauge: ncalls("core.MetricRegistry.RegisterGauge") == 1 && callarg("core.MetricRegistry.RegisterGauge", 0, 0) == "limit" && isfunc(*captured(callarg("core.MetricRegistry.RegisterGauge", 0, 1), "core.NewIntMetricSupplierWrapper$1", 0), "(*strategy.SimpleStrategy).GetLimit$bound") && captured(*captured(callarg("core.MetricRegistry.RegisterGauge", 0, 1), "core.NewIntMetricSupplierWrapper$1", 0), "(*strategy.SimpleStrategy).GetLimit$bound", 0) == result
-//@   establishes[C01] result
+//@   establishes[C01,C02] result
 
 // ---------------------------------------------------------------------------------------------
 // Lemma clients (zz_lemmas_verif.go): a granted token, released, gives back exactly what it took.
@@ -422,3 +422,38 @@ package strategy
 //@ func lemmaPredicateRoundTrip
 //@   requires objs: s != nil && inv(s) && s.busy < MaxInt32 && forall p *strategy.PredicatePartition :: 0 <= p.busy && p.busy < MaxInt32
 //@   ensures[C02,C03] restored: s.busy == old(s.busy) && (forall q *strategy.PredicatePartition :: q.busy == old(q.busy))
+
+// ---------------------------------------------------------------------------------------------
+// Constructors of the partitioned strategies: the induction base of the invariants above. The
+// valid-configuration predicate is the requires clauses (total limit >= 1, fractions in [0,1],
+// non-nil partitions and registry).
+//@ func NewLookupPartitionWithMetricRegistry
+//@   requires pct: isFinite(percent) && 0.0 <= percent && percent <= 1.0
+//@   requires registry_ok: registry != nil
+//@   establishes[C03] result
+//@   ensures[C03] fields: result != nil && fresh(result) && result.percent == percent && result.limit == max(1, limit) && result.busy == 0 && result.name == name
+
+//@ func NewLookupPartitionStrategyWithMetricRegistry
+//@   requires cfg: limit >= 1 && registry != nil
+//@   requires bins: forall k string :: has(partitions, k) ==> partitions[k] != nil && inv(partitions[k])
+//@   loop 1 invariant[C03,C05] visited_shares: forall k string :: #visited[k] ==> partitions[k].limit == share(limit, partitions[k].percent)
+//@   loop 1 invariant[C03] bins_kept: forall k string :: has(partitions, k) ==> partitions[k] != nil && inv(partitions[k])
+//@   establishes[C03,C05] ret0 != nil ==> ret0
+//@   ensures[C03] fields: ret0 != nil ==> ret1 == nil && fresh(ret0) && ret0.partitions == partitions && ret0.limit == limit && ret0.busy == 0
+//@   ensures[C03] rejects_empty: len(partitions) == 0 ==> ret0 == nil && ret1 != nil
+//@   ensures[C03] unknown_bin_is_fresh: ret0 != nil ==> fresh(ret0.unknownPartition)
+
+//@ func NewPredicatePartitionWithMetricRegistry
+//@   requires pct: isFinite(percent) && 0.0 <= percent && percent <= 1.0
+//@   requires registry_ok: registry != nil
+//@   establishes[C03] result
+//@   ensures[C03] fields: result != nil && fresh(result) && result.percent == percent && result.limit == 1 && result.busy == 0 && result.name == name && result.predicate == predicateFunc
+
+//@ func NewPredicatePartitionStrategyWithMetricRegistry
+//@   requires cfg: limit >= 1 && registry != nil
+//@   requires bins: forall i int :: 0 <= i && i < len(partitions) ==> partitions[i] != nil && inv(partitions[i])
+//@   loop 1 invariant[C03,C05] visited_shares: -1 <= #rangeindex && #rangeindex < len(partitions) && (forall j int :: 0 <= j && j <= #rangeindex ==> partitions[j].limit == share(limit, partitions[j].percent))
+//@   loop 1 invariant[C03] bins_kept: forall i int :: 0 <= i && i < len(partitions) ==> partitions[i] != nil && inv(partitions[i])
+//@   establishes[C03,C05] ret0 != nil ==> ret0
+//@   ensures[C03] fields: ret0 != nil ==> ret1 == nil && fresh(ret0) && ret0.partitions == partitions && ret0.limit == limit && ret0.busy == 0
+//@   ensures[C03] rejects_empty: len(partitions) == 0 ==> ret0 == nil && ret1 != nil
